@@ -36,9 +36,10 @@ def build_font(desc, lib="ufoLib2"):
         import defcon
         font = defcon.Font()
     info = dict(desc.get("info", {}))
-    info.setdefault("unitsPerEm", 1000)
-    info.setdefault("familyName", "Test")
-    info.setdefault("styleName", "Regular")
+    if not desc.get("no_info_defaults"):
+        info.setdefault("unitsPerEm", 1000)
+        info.setdefault("familyName", "Test")
+        info.setdefault("styleName", "Regular")
     for k, v in info.items():
         setattr(font.info, k, num(v) if not isinstance(v, (list, dict, str)) else v)
     for g in desc["glyphs"]:
